@@ -63,11 +63,11 @@ def sha(text):
     return hashlib.sha256(text).hexdigest()[:16]
 
 
-def save_violation_case(pid, text):
+def save_violation_case(pid, text, ext=".case"):
     d = os.path.join(OUT, "violations", pid)
     os.makedirs(d, exist_ok=True)
     mode = "wb" if isinstance(text, bytes) else "w"
-    p = os.path.join(d, sha(text) + ".case")
+    p = os.path.join(d, sha(text) + ext)
     with open(p, mode) as f:
         f.write(text)
     return p
@@ -91,6 +91,18 @@ class Outcome:
 
     def add_violation(self, signature, detail, replay_path):
         self.violations.append((signature, detail, replay_path))
+
+    def merge(self, other, part_name):
+        """Fold another part's outcome (same property, other engine) into this one."""
+        self.evaluations += other.evaluations
+        self.distinct_nontrivial += other.distinct_nontrivial
+        self.samples = self.samples[:6] + other.samples[:6]
+        for k, v in other.known_hits.items():
+            self.known_hits[k] = self.known_hits.get(k, 0) + v
+        self.violations += other.violations
+        self.notes += ["%s: %s" % (part_name, n) for n in other.notes]
+        self.gates_unmet += ["%s: %s" % (part_name, g) for g in other.gates_unmet]
+        self.extra.setdefault("parts", {})[part_name] = dict(other.extra, evaluations=other.evaluations, distinct_nontrivial=other.distinct_nontrivial, rule=other.meta.get("rule", ""))
 
     def finish(self):
         pid = self.pid
